@@ -272,3 +272,12 @@ package sweep
 //@   site store RBFInfo.Fee: assert value == swrap(retn(GetTx, 0).Fee, 64) && retn(GetTx, 1) == nil
 //@   site store RBFInfo.Txid: assert value == ret(TxHash, 0)
 //@   site call GetTx: assert arg(1) == ret(TxHash, 0)
+//@
+//@ // ---- the block loop of the publisher: the height of the block in hand is recorded BEFORE the records are processed - the position on the
+//@ // ---- fee schedule (and with it "the ceiling is reached one block before the deadline") is computed from the recorded height
+//@ func (t *TxPublisher) monitor
+//@   props C18
+//@   loop * havoc
+//@   site call Store: assert arg(1) == ret(Height)
+//@   site call processRecords: assert called(Store, 0) && called(Height, 0)
+//@   loop 0 step called(Height, 0) ==> called(Store, 0) && called(processRecords, 0)
